@@ -1,8 +1,10 @@
 # C12 - concurrent unordered / ordered associative containers never lose or duplicate keys; traversals are safe.
 #   protocol spec: spec/cont/SplitList.tla (insert-only split-ordered list: search from the bucket dummy, CAS on the predecessor, re-search on failure)
+#                  spec/cont/SkipList.tla (lock-free skip list insert / lower_bound: per-level search, level-0 CAS with re-search, max-height CAS, upper-level CAS
+#                  with re-search); every edge of its state graph is replayed on the real concurrent_skip_list (h_skiplist), per-step comparison of all levels
 #   abstract spec: spec/cont/SetAbs.tla; histories (insert/find/count + traversals concurrent with inserts) of the eight container types
 #   validated by TLC (TraceSet.tla)
-import os, vlib, contlib
+import os, re, json, vlib, contlib
 P1 = ['ins:1,ins:2,trav', 'ins:2,ins:3,find:1', 'trav,ins:4,count:2']
 P2 = ['ins:5,ins:1,trav,ins:9', 'ins:3,ins:5,find:9', 'trav,ins:2,trav']
 P3 = ['ins:1,ins:1,ins:2', 'ins:1,ins:2,trav', 'count:1,trav,ins:2']
@@ -19,4 +21,46 @@ def run(res, tier, seed):
     thorough = tier != 'quick'
     for cfg in ['SplitList_PA_FALSE.cfg', 'SplitList_PA_TRUE.cfg', 'SplitList_PB_FALSE.cfg', 'SplitList_PB_TRUE.cfg']:
         vlib.model_check(res, contlib.SD, 'MCSplitList', cfg)
+    replay_skiplist(res, thorough)
     contlib.run_scenarios(res, 'C12', 'TraceSet', SCEN, 400 if not thorough else 6000, seed, 'concurrent associative container')
+
+
+KEYS = {1: 10, 2: 20, 3: 20, 4: 15}; HEIGHTS = {1: 2, 2: 3, 3: 1, 4: 2}          # = KeyA / HeightA of MCsk.tla
+SK = [('SkipList_A.cfg', 2, '2,1|3,4', '||'), ('SkipList_D.cfg', 3, '4|2|', '||20')]
+SK_T = [('SkipList_B.cfg', 3, '2|4|1,3', '||'), ('SkipList_C.cfg', 3, '4,2|1|', '||20,15')]
+
+
+def replay_skiplist(res, thorough):
+    exe = vlib.build_harness('h_skiplist', ['cont/h_skiplist.cpp'])
+    os.makedirs(os.path.join(vlib.BUILD, 'graphs'), exist_ok=True)
+    for cfg, nth, prog, fk in SK + (SK_T if thorough else []):
+        tag = 'c12-' + cfg[:-4]
+        dot = os.path.join(vlib.BUILD, 'graphs', tag + '.dot')
+        r = vlib.tlc(contlib.SD, 'MCsk', cfg, dump=dot, deadlock=False, timeout=3000, xmx='24g'); res.add_tlc(r, 'SkipList:' + cfg); vlib.tlc_must_hold(r, cfg)
+        if r.violation:
+            raise vlib.HarnessFailure('SkipList model violates %s' % r.violation)
+        nodes, edges, init = vlib.parse_dot(dot, ['maxh', 'nxt'], raw=True); os.unlink(dot)
+
+        def conv(v):
+            f = v.split('\x1f'); lv = re.findall(r'\((\d+ :> \d+(?: @@ \d+ :> \d+)*)\)', f[1]); out = [f[0].strip()]
+            for s in lv:
+                nx = {int(a): int(b) for a, b in re.findall(r'(\d+) :> (\d+)', s)}; ks = []; n = nx[0]
+                while n != 99 and len(ks) < 10:
+                    ks.append(str(KEYS[n])); n = nx[n]
+                out.append(','.join(ks))
+            return '|'.join(out)
+        nodes = {k: conv(v) for k, v in nodes.items()}
+        paths, cov, tot = vlib.edge_cover(nodes, edges, init)
+        sched = os.path.join(vlib.BUILD, 'graphs', tag + '.sched'); vlib.write_schedules(paths, sched)
+        args = [str(nth), ','.join(str(KEYS[i]) for i in sorted(KEYS)), ','.join(str(HEIGHTS[i]) for i in sorted(HEIGHTS)), prog, fk]
+        sums, tfs = vlib.run_harness_parallel(lambda part, tf: [exe, part, tf] + args, sched, tag, timeout=2500)
+        ssum = vlib.sum_dicts(sums); os.unlink(sched)
+        sig = contlib.make_sig('TraceSet', tag)
+        vlib.validate_and_report(res, contlib.SD, 'TraceSet', 'TraceSet.cfg', vlib.collect_traces(tfs), tag,
+                                 lambda tr: 'replay of SkipList.tla on the real concurrent_skip_list: the recorded history is rejected by TraceSet (%s): %s' % (sig(tr), json.dumps([e for e in tr if not e['e'].startswith('#')])[:1200]),
+                                 batch=150, sig_fn=lambda tr: 'skiplist:' + sig(tr))
+        vlib.log('%s: %d states, %d/%d edges in %d schedules, %d real steps, drift %d, mismatch %d' % (tag, r.distinct, cov, tot, len(paths), ssum['steps'], ssum['drift'], ssum['state_mismatch']))
+        res.extra['spec_edges_replayed'] = res.extra.get('spec_edges_replayed', 0) + cov; res.extra['spec_edges_total'] = res.extra.get('spec_edges_total', 0) + tot
+        res.extra['drift_steps'] = res.extra.get('drift_steps', 0) + ssum['drift'] + ssum['state_mismatch']
+        if ssum['drift'] + ssum['state_mismatch']:
+            print('SPEC-DRIFT property=C12 skip list replay: %d paths disagree with SkipList.tla' % (ssum['drift'] + ssum['state_mismatch']))
